@@ -275,6 +275,12 @@ def finish : Nat → St → List Node
     | [] => s.topKids
     | _ :: _ => finish fuel (closeTop s)
 
+/-- one line parsed as a top-level segment (`find_groups=False`) -/
+def parseLine (T : Tables) (dflt : Defaults) (ec : EC) (strict : Bool) (l : Str) : R Node :=
+  match Pe.segment T dflt (strip l) ec strict with
+  | .ok sg => .ok (Node.seg sg)
+  | .error e => .error e
+
 /-- `parse_segments(text, version, ec, level, references, find_groups)` -/
 def parseSegments (T : Tables) (dflt : Defaults) (text : Str) (ec : EC) (strict : Bool)
     (refs : Option (List SRow)) (findGroups : Bool) : R (List Node) := do
@@ -286,9 +292,7 @@ def parseSegments (T : Tables) (dflt : Defaults) (text : Str) (ec : EC) (strict 
       (⟨[], rows, []⟩ : St)
     pure (finish (st.frames.length + 1) st)
   | _, _ =>
-    lines.mapM (fun l => do
-      let sg ← Pe.segment T dflt (strip l) ec strict
-      pure (Node.seg sg))
+    lines.mapM (parseLine T dflt ec strict)
 
 /-- delimiters for which the `Message(...)` constructor's own MSH assignments can fail (digits, letters,
     white space as delimiters): outside the model's domain -/
